@@ -74,7 +74,9 @@ type Tape struct {
 	MaxLen int
 }
 
-func NewTape(seed uint64) *Tape { return &Tape{r: newRng(seed), fp: 0x243f6a8885a308d3, MaxLen: 1 << 20} }
+func NewTape(seed uint64) *Tape {
+	return &Tape{r: newRng(seed), fp: 0x243f6a8885a308d3, MaxLen: 1 << 20}
+}
 
 func ReplayTape(vals []uint64) *Tape {
 	return &Tape{in: vals, replay: true, fp: 0x243f6a8885a308d3, MaxLen: 1 << 20}
